@@ -4,7 +4,7 @@ from .families import sort_keys
 
 CONTAINER_KINDS = ('Set', 'TreeSet', 'Bucket', 'BTree')
 ITERABLE_KINDS = ('list', 'shuffled', 'dups', 'tuple', 'generator', 'pyset',
-                  'dict', 'range', 'other-impl')
+                  'dict', 'range', 'other-impl', 'keys-view', 'values-view')
 
 
 def make_container(fam, kind, impl, keys, values, rng, sizes=None):
@@ -60,6 +60,28 @@ def make_iterable(how, keys, rng, fam, impl):
             r = range(lo, min(lo + n, hi + 1))
             return r, list(r), False
         return sort_keys(ks), ks, False
+    if how == 'keys-view':
+        # the lazy keys() sequence of a tree / the key list of a bucket
+        kind = rng.choice(CONTAINER_KINDS)
+        c, _ = make_container(fam, kind, impl, ks, fam.values(rng), rng)
+        return c.keys(), ks, False
+    if how == 'values-view':
+        # values() of a mapping whose VALUES are our keys, in no key order
+        if ks and all(fam.val_ok(k) and k is not None for k in ks) and \
+                fam.vc != 'F':
+            kind = rng.choice(('BTree', 'Bucket'))
+            cls = fam.cls(kind, impl)
+            m = cls()
+            outer = [k for k in fam.key_universe(rng, n=len(ks) + 6)
+                     if k is not None][:len(ks)]
+            if len(outer) == len(ks):
+                vs = list(ks)
+                rng.shuffle(vs)
+                for k, v in zip(outer, vs):
+                    m[k] = v
+                return m.values(), ks, False
+        rng.shuffle(ks)
+        return list(ks), ks, False
     if how == 'other-impl':
         other = 'py' if impl == 'c' else 'c'
         kind = rng.choice(CONTAINER_KINDS)
